@@ -45,6 +45,11 @@ ASSUMPTIONS = [
     'cumulative-sums p-values are compared (and range-checked) only for n >= 100; below, the truncation '
     'of the series is ambiguous in the standard',
     'for n > 2^14 the spectral reference uses numpy.fft (cross-checked against the pure-Python DFT below)',
+    'UniversalImpl is exercised for block sizes L >= 2 only: for L = 1 the factor c of SP 800-22 2.9.4 is '
+    'negative (0.7 - 0.8/L + ...), so the specified formula itself leaves [0, 1]',
+    'domain of the explicit-parameter entry points: NonOverlappingTemplateMatching with n // blocks >= m, '
+    'OverlappingTemplateMatching with block_size >= m + 4 (all six classes possible), BinaryMatrixRank '
+    'with columns >= rows >= k >= 1, Serial n >= m_max, ApproximateEntropy n >= m_max + 1, n >= 1',
 ]
 
 TOL_ABS = 1e-9
@@ -540,12 +545,12 @@ def chk_overlapping(bits, n, b, prm, cls):
   m = prm.get('tm', 9)
   blen = prm.get('bl', 2 ** (m + 1) + m - 1)
   default = 'tm' not in prm
-  if n // blen < 1:
-    # no documented minimum: the outcome for zero blocks is not asserted
-    cls.append('overlapping-no-block(not asserted)')
-    return False
   args = (bits, n) if default else (bits, n, m, blen)
-  got = libcall(N.OverlappingTemplateMatching, *args)
+  got = call('OverlappingTemplateMatching', N.OverlappingTemplateMatching, args, n < blen, n=n,
+             m=m, block=blen)
+  if got is None:
+    cls.append('insufficient')
+    return near(n, [blen])
   info = {}
   exp = R.overlapping_template(b, m, blen, 5, info)
   check_p('OverlappingTemplateMatching', got, exp, n=n, m=m, block=blen, v=info['v'])
@@ -1481,35 +1486,7 @@ def _pred_f10(arm, desc, v):
           and v.detail.get('library') == NIST_LR_10000)
 
 
-def _pred_runs_constant(arm, desc, v):
-  if v.clause != 'raises:ZeroDivisionError@nist_suite.py:Runs':
-    return False
-  bits, n = _string_of(desc)
-  return n is not None and n >= 1 and is_constant(bits, n)
-
-
-def _pred_serial_nan(arm, desc, v):
-  return v.clause == 'nan:Serial:zero-statistic-rounds-negative'
-
-
-def _pred_apen_nan(arm, desc, v):
-  return v.clause == 'nan:ApproximateEntropy:chi-rounds-negative'
-
-
-def _pred_blockcount(arm, desc, v):
-  return (v.clause == 'blockcount:NonOverlappingTemplateMatching'
-          and v.detail.get('blocks_used', 0) > v.detail.get('blocks', 0)
-          and v.detail.get('block_size', 1 << 30) < v.detail.get('blocks', 0))
-
-
-# provisional names; the ids of known_findings.json are bound in KNOWN below
-PREDICATES = {
-    'longestruns-table-10000': _pred_f10,
-    'runs-constant-string': _pred_runs_constant,
-    'serial-nan': _pred_serial_nan,
-    'apen-nan': _pred_apen_nan,
-    'nonoverlapping-block-count': _pred_blockcount,
-}
+PREDICATES = {'F10': _pred_f10}
 
 KNOWN = {
     'F10': _pred_f10,
